@@ -306,11 +306,9 @@ class Spline final {
    */
   Spline<T, order> &operator*=(const T &d) {
     DURING_TEST_CHECK_VALIDITY();
-    for (auto &cs : _coefficients) {
-      for (auto &c : cs) {
-        c *= d;
-      }
-    }
+    // Compute the product first, then assign (as += does): if the arithmetic of
+    // T throws half way through, this spline is left unchanged.
+    *this = (*this) * d;
     return *this;
   };
 
